@@ -23,7 +23,7 @@ func init() { register(c18{}) }
 func (c18) ID() string            { return "C18" }
 func (c18) EvidenceLevel() string { return "exploration" }
 func (c18) Rule() string {
-	return "every runnable dispatch level executes the same seed-determined case list in its own processes and logs, per case, the digest of the bytes handed out and the outcome kind (EOF, unexpected-EOF, corrupt, panic); an offline checker joins the logs on the case id and requires all levels to agree (and each child to have logged the level it was asked to run). Decode cases: valid, truncated, mutated and single-fault streams from the standard library and the synthesiser (never from fastgo's own writers, whose output may legitimately differ between levels), padded so that the AVX2 loop's entry condition (>= 25 input bytes, >= 275 bytes of output room) holds when the defect is reached, the same inputs in small chunks that keep it false, and outputs crossing the 64 KiB history wrap. Compress cases: decoded result and C01/C19/C20 verdicts per level must agree. Non-trivial: the case was executed at >= 2 levels and is not an empty input; distinct by input digest. Inputs include the synthesised corner shapes of the decoder (match-edge, window-edge, longest header, two deep sub-trees; a third of the match-edge streams also delivered in every possible two-piece split, so that the assembly loop runs out of input at every byte) and compress inputs that fill the token buffer exactly where a long match begins (all lengths 32700..32800 and 65300..65560 per accelerated setting) or re-enter the match finder with the token buffer nearly full."
+	return "every runnable dispatch level executes the same seed-determined case list in its own processes and logs, per case, the digest of the bytes handed out and the outcome kind (EOF, unexpected-EOF, corrupt, panic); an offline checker joins the logs on the case id and requires all levels to agree (and each child to have logged the level it was asked to run). Decode cases: valid, truncated, mutated and single-fault streams from the standard library and the synthesiser (never from fastgo's own writers, whose output may legitimately differ between levels), padded so that the AVX2 loop's entry condition (>= 25 input bytes, >= 275 bytes of output room) holds when the defect is reached, the same inputs in small chunks that keep it false, and outputs crossing the 64 KiB history wrap. Compress cases: decoded result and C01/C19/C20 verdicts per level must agree. Non-trivial: the case was executed at >= 2 levels and is not an empty input; distinct by input digest. Inputs include the synthesised corner shapes of the decoder (match-edge, window-edge, longest header, two deep sub-trees; a third of the match-edge streams also delivered in every possible two-piece split, so that the assembly loop runs out of input at every byte) and compress inputs that fill the token buffer exactly where a long match begins (all lengths 32700..32800 and 65300..65560 per accelerated setting) or re-enter the match finder with the token buffer nearly full. A further share of the compress cases sweeps 61 consecutive input sizes around an 8 KiB output-chunk boundary."
 }
 func (c18) NumCases(tier string) int {
 	if tier == "thorough" {
@@ -43,6 +43,52 @@ func (c18) Run(c *mon.Ctx, i int) {
 			d = gen.Make(r, []string{"farcopy3", "farcopy2", "farcopy", "sparsematch", "farcopy3"}[r.Intn(5)], r.Range(40000, 200000))
 		}
 		ops := gen.Schedule(r, len(d.B), gen.FlushPositions(r, len(d.B)), gen.PartitionStyles[r.Intn(4)])
+		if i%96 == 47 {
+			// output-chunk boundary sweep (as in C01): the writers hand their output
+			// to the destination in 8 KiB chunks; 61 consecutive input sizes around
+			// the size at which the compressed block ends at a chunk boundary
+			s = accelSettings[(i/96)%8]
+			fam := []string{"uniform", "alpha16", "text", "nearuniform"}[(i/96/8)%4]
+			mult := (i/96/32)%3 + 1
+			data := gen.Make(r, fam, 70000).B
+			var vs []string
+			if probe, e := emit(c.API, s, data[:20000], []gen.Op{{Kind: "write", N: 20000}, {Kind: "close"}}); e == nil && len(probe) > 0 {
+				center := int(float64(mult*8180) / (float64(len(probe)) / 20000))
+				if center > 69000 {
+					center = 69000
+				}
+				for n := center - 30; n <= center+30; n++ {
+					if n < 1 {
+						continue
+					}
+					o, e := emit(c.API, s, data[:n], []gen.Op{{Kind: "write", N: n}, {Kind: "close"}})
+					c.Eval(1)
+					vd := "write-error"
+					if e == nil {
+						if dec, e2 := stdlibInflate(o, nil); e2 != nil {
+							vd = "decoded-error"
+						} else if bytes.Equal(dec, data[:n]) {
+							vd = "ok"
+						} else {
+							vd = fmt.Sprintf("decoded-differs(%d bytes for %d)", len(dec), n)
+						}
+					}
+					// the sizes swept depend on the level's own compression ratio, so
+					// only failures are recorded by size; the rest is a count
+					if vd != "ok" {
+						vs = append(vs, fmt.Sprintf("n%d:%s", n, vd))
+					}
+				}
+			}
+			if vs == nil {
+				vs = []string{"all sizes round-trip"}
+			}
+			c.Extra("r", fmt.Sprint(vs))
+			c.Extra("k", "compress-chunk-boundary-sweep "+s.String()+" "+fam)
+			c.Count("compress-cases-around-an-output-chunk-boundary", 1)
+			c.Nontrivial("compress-chunk-boundary", s.String(), fam, mult)
+			return
+		}
 		if i%48 == 23 {
 			// the token buffer fills exactly where a long match begins, or the match
 			// finder is re-entered with the token buffer nearly full (the portable
